@@ -133,8 +133,22 @@ func (s *cronSpec) run(c *gctx) outcome {
 		sched, err = cron.NewParser(p.opts).Parse(s.spec)
 	}
 	c.pause(s.d)
+	// a Cron of this goroutine's own reads the package-level default parser and
+	// default logger; its AddFunc must agree with ParseStandard
+	add := ""
+	if cronParsers[s.parser].opts == 0 {
+		cr := cron.New()
+		id, aerr := cr.AddFunc(s.spec, func() {})
+		add = fmt.Sprintf(" | cron.New().AddFunc: id=%d err=%q entries=%d", id, errText(aerr), len(cr.Entries()))
+		if c.conc {
+			c.count("cron.new_addfunc_calls", 1)
+		}
+		if (aerr == nil) != (err == nil) {
+			add += " DISAGREES with ParseStandard"
+		}
+	}
 	if err != nil {
-		return outcome{res: "error: " + err.Error(), class: "error"}
+		return outcome{res: "error: " + err.Error() + add, class: "error"}
 	}
 	var res string
 	switch v := sched.(type) {
@@ -152,7 +166,7 @@ func (s *cronSpec) run(c *gctx) outcome {
 			res += " " + t.UTC().Format(time.RFC3339)
 		}
 	}
-	return outcome{res: res, class: "schedule", ok: true}
+	return outcome{res: res + add, class: "schedule", ok: true}
 }
 
 // ---------------------------------------------------------------------- logger
